@@ -52,6 +52,7 @@ fn regress(id: &str, ctx: &Ctx, f: fn(&Ctx, &Value)) {
 props! {
     "C02" => c02,
     "C03" => c03,
+    "C04" => c04,
     "C05" => c05,
     "C06" => c06,
     "C07" => c07,
